@@ -20,9 +20,9 @@ import (
 //   - map lookups: canonical keys are produced, but the users (type-set dataflow) kill them at
 //     MapUpdate/delete and at calls that may write maps.
 type canonizer struct {
-	p     *Prog
-	fn    *ssa.Function
-	memo  map[ssa.Value]string
+	p      *Prog
+	fn     *ssa.Function
+	memo   map[ssa.Value]string
 	stable map[string]bool // element types (as strings) with no stores in fn => loads canonical
 }
 
